@@ -54,7 +54,9 @@ func c03Inputs(k Kind) []any {
 	common := []any{"1", "0", "42", "-7", "3.5", "on", "off", "true", "false", "t", "T", "True", "TRUE", "f", "F", "FALSE", "False", "test", "abc",
 		1, 0, 42, -7, int32(5), int64(6), float32(2.5), 3.5, 3.0, -2.9, true, false,
 		"2024-01-02T03:04:05Z", "2024-01-02T03:04:05+02:00", "2024-01-02", "02/01/2024", "2024-01-02 03:04", 1700000000, int64(1700000000), 1.7e9,
-		time.Date(2024, 5, 6, 7, 8, 9, 0, time.UTC), []byte("hi"), []any{"x"}, map[string]any{"a": 1}, uint(3), "1e3", " 5 ", "+5", "5.0", "x y"}
+		time.Date(2024, 5, 6, 7, 8, 9, 0, time.UTC), []byte("hi"), []any{"x"}, map[string]any{"a": 1}, uint(3), "1e3", " 5 ", "+5", "5.0", "x y",
+		// text that is not valid UTF-8 (Latin-1 bytes, a truncated rune) and text with control bytes: a string is its bytes
+		"caf\xe9", "\xe2\x82", "a\x00b", "tab\there"}
 	return common
 }
 
